@@ -136,7 +136,8 @@ def build(chk):
             P.require('reproduces-objective', b_and(*conj), witness)
         return h
 
-    shapes = [None, ('constant',), ('linear', 2), ('quadratic', 2, 1), ('polynomial', (2, 2)), ('polynomial', (1, 2, 3)), ('polynomial', (4,)), ('polynomial', (0, 1, 2)), ('polynomial', (3, 3))]
+    shapes = [None, ('constant',), ('linear', 2), ('quadratic', 2, 1), ('polynomial', (2, 2)), ('polynomial', (1, 2, 3)), ('polynomial', (4,)), ('polynomial', (0, 1, 2)), ('polynomial', (3, 3)),
+              ('polynomial', (0, 2, 0))]       # two constant monomials: un-merged representations are legal messages
     if chk.tier == 'thorough':
         shapes += [('quadratic', 3, None), ('polynomial', (2, 4)), ('polynomial', (1, 1, 4)), ('polynomial', (2, 2, 2))]
     for which in ('pubo', 'qubo'):
